@@ -86,6 +86,10 @@ def check_property(pid, tier, seed):
     meta = getattr(mod, "META", {})
     tasks = list(getattr(mod, "TASKS", []))
     timeout = 20 if tier == "quick" else 60
+    # the native evaluation of the contracts runs concurrently with VC generation and solving
+    from concurrent.futures import ThreadPoolExecutor
+    pool = ThreadPoolExecutor(max_workers=1)
+    harness_future = pool.submit(run_harness, pid, tier, seed)
     results = []
     for t in tasks:
         try:
@@ -120,8 +124,19 @@ def check_property(pid, tier, seed):
     vacuous = [c for c in cover_v if c.kind == "pre-sat" and c.status == "UNSATISFIABLE"]
 
     # ---- native harness (cross-check of every contract + the bounded clauses); focus on failing functions first
-    focus = sorted({v.name.split(":")[0].split("[")[0] for v in refuted + unknown} | {lbl for lbl, _ in undecided_fns})
-    harness = run_harness(pid, tier, seed, extra=(["--focus", ",".join(focus)] if focus else []))
+    candidates = [v for v in verdicts if v.status == "candidate"]
+    focus = sorted({v.name.split(":")[0].split("[")[0] for v in refuted + unknown + candidates} | {lbl.split("[")[0] for lbl, _ in undecided_fns})
+    harness = harness_future.result()
+    pool.shutdown()
+    if focus and harness and not harness.get("error"):
+        # directed search: more native effort on the functions the prover complained about, unless a failing input is already known
+        have = {f.get("function", "") for cl in harness.get("clauses", []) for f in cl.get("failures", [])}
+        if not any(any(fc.split(".")[-1] in h for h in have) for fc in focus):
+            extra = run_harness(pid, tier, seed + 1, extra=["--focus", ",".join(focus), "--only-focus"])
+            if extra and not extra.get("error"):
+                for cl in extra.get("clauses", []):
+                    cl["name"] = cl["name"] + " [directed]"
+                harness["clauses"] += extra.get("clauses", [])
 
     known = load_known()
     os.makedirs(os.path.join(HERE, "replays", pid), exist_ok=True)
@@ -184,6 +199,8 @@ def check_property(pid, tier, seed):
     for kf in {k["key"]: k for k in known_hits}.values():
         lines.append(f"KNOWN-FINDING: property={pid} {kf['what']}")
     # known findings that are reported by construction (state signatures checked by the harness)
+    for v in candidates:
+        lines.append(f"UNDECIDED obligation={v.name} (unproved; goal-directed candidate counter-model not confirmed) fallback=bounded [{v.detail}]")
     for v in unknown:
         lines.append(f"UNDECIDED obligation={v.name} fallback=bounded({'harness ran' if harness else 'none'}) [{v.detail}]")
     for lbl, why in undecided_fns:
@@ -229,7 +246,7 @@ def check_property(pid, tier, seed):
                      path_cover_sat=sum(c.kind == "path-cover" and c.status == "satisfiable" for c in cover_v),
                      path_cover_unknown=sum(c.kind == "path-cover" and c.status == "unknown" for c in cover_v),
                      path_cover_unreachable=[c.name for c in cover_v if c.kind == "path-cover" and c.status == "UNSATISFIABLE"]),
-        undecided=[dict(obligation=v.name, trace=v.detail) for v in unknown] + [dict(function=a, reason=b) for a, b in undecided_fns],
+        undecided=[dict(obligation=v.name, trace=v.detail) for v in unknown + candidates] + [dict(function=a, reason=b) for a, b in undecided_fns],
         refuted=[dict(obligation=v.name, backend=v.backend) for v in refuted],
         bounded=[dict(clause=c["name"], kind=c.get("kind"), bound=c.get("bound"), cases=c.get("cases"), nontrivial=c.get("nontrivial"),
                       failures=len(c.get("failures", []))) for c in (harness or {}).get("clauses", [])],
@@ -244,14 +261,14 @@ def check_property(pid, tier, seed):
         coverage["explanation"] = "not every obligation was discharged on this run; see 'undecided'/'refuted'"
     if not fully_proved:
         coverage["explanation"] = (coverage["explanation"] + " | THIS RUN: " + f"{n_dis}/{n_obl} obligations discharged, "
-                                   f"{len(refuted)} refuted, {len(unknown)} unknown, {len(undecided_fns)} functions outside the subset").strip(" |")
+                                   f"{len(refuted)} refuted, {len(unknown) + len(candidates)} unknown, {len(undecided_fns)} functions outside the subset").strip(" |")
     ev = dict(property_id=pid, tier=tier, seed=seed, level=level, coverage=coverage,
               assumptions=meta.get("assumptions", []), wall_s=round(time.time() - t0, 2), violations=len(violations))
     os.makedirs(os.path.join(HERE, "evidence"), exist_ok=True)
     with open(os.path.join(HERE, "evidence", f"{pid}.json"), "w") as f:
         json.dump(ev, f, indent=1, default=str)
     print(f"[{pid}] tier={tier} functions={len([r for r in results if r.info])} obligations={n_obl} discharged={n_dis} refuted={len(refuted)} "
-          f"unknown={len(unknown)} undecided_functions={len(undecided_fns)} bounded_clauses={len((harness or {}).get('clauses', []))} "
+          f"unknown={len(unknown) + len(candidates)} undecided_functions={len(undecided_fns)} bounded_clauses={len((harness or {}).get('clauses', []))} "
           f"solver_s={solver_time:.1f} wall_s={time.time() - t0:.1f}")
     for ln in lines:
         print(ln)
